@@ -694,6 +694,12 @@ impl FromIterator<Paragraph> for Deb822 {
                 builder.token(NEWLINE.into(), "\n");
                 builder.finish_node();
             }
+            // A paragraph read from text may lack its final newline: terminate
+            // a copy of it (not the paragraph that was passed in, which may
+            // belong to another document), so that the separating empty line
+            // does not merely end that last line.
+            let paragraph = Paragraph(SyntaxNode::new_root_mut(paragraph.0.green().into_owned()));
+            paragraph.ensure_trailing_newline();
             inject(&mut builder, paragraph.0);
         }
         builder.finish_node();
